@@ -22,8 +22,31 @@ func init() {
 		json.Unmarshal(raw, &in)
 		obs := classifyCell(in.Program, in.C, in.C2)
 		ok := c04AtLeast(obs, in.Reviewed)
+		if ok && (obs.Class == "URL" || obs.Class == "TRURLOrURL") {
+			if cl, detail := c04URLEffects(in.Program, in.C); cl != "" {
+				return true, cl + ": " + detail
+			}
+		}
 		return !ok, fmt.Sprintf("program %q (C=%v): observed class %s (%v %s), reviewed policy demands at least %s", in.Program, in.C, obs, obs.Kind, obs.Err, in.Reviewed)
 	}
+}
+
+// c04URLEffects: a cell that behaves as a URL context must show the effects of the normalizer and of the sanitizer.
+func c04URLEffects(text string, c bool) (clause, detail string) {
+	p, _ := tmplx.Prepare(text)
+	if p == nil {
+		return "", ""
+	}
+	if rn := execOne(p, "a b\"c", c); rn.Kind == tmplx.OK && !strings.Contains(rn.Out, "a%20b%22c") {
+		return "url-not-normalized", fmt.Sprintf("program %s: plain URL %q rendered as %s (normalizer did not run)", core.Q(text), "a b\"c", core.Q(rn.Out))
+	}
+	// the sanitizer runs for every shape of a javascript URL a plain string can have
+	for _, u := range []string{"javascript://h.example/%0Aalert(1)", "JAVASCRIPT://h/", "JavaScript:x", "\tjavascript:x", "java\nscript://x"} {
+		if rj := execOne(p, u, c); rj.Kind == tmplx.OK && strings.Contains(strings.ToLower(strings.NewReplacer("\t", "", "\n", "", "&#9;", "", "&#10;", "", "%09", "", "%0a", "").Replace(rj.Out)), "javascript:") {
+			return "url-not-sanitized", fmt.Sprintf("program %s: plain string %q rendered as %s (the URL sanitizer did not replace it)", core.Q(text), u, core.Q(rj.Out))
+		}
+	}
+	return "", ""
 }
 
 type c04Replay struct {
@@ -196,11 +219,8 @@ func checkC04(r *core.Run) {
 		}
 		// URL cells must show sanitizer and normalizer effects; enum cells refuse static partial values
 		if obs.Class == "URL" || obs.Class == "TRURLOrURL" {
-			p, _ := tmplx.Prepare(text)
-			if p != nil {
-				if rn := execOne(p, "a b\"c", c); rn.Kind == tmplx.OK && !strings.Contains(rn.Out, "a%20b%22c") {
-					r.Witness("url-not-normalized", discr, input, fmt.Sprintf("program %s: plain URL %q rendered as %s (normalizer did not run)", core.Q(text), "a b\"c", core.Q(rn.Out)), c04Replay{text, c, c2, reviewed})
-				}
+			if cl, detail := c04URLEffects(text, c); cl != "" {
+				r.Witness(cl, discr, input, detail, c04Replay{text, c, c2, reviewed})
 			}
 		}
 	}
